@@ -372,9 +372,10 @@ func (q PathQuery) Exists() (bool, []*ssa.BasicBlock) {
 	if hit {
 		return true, trail
 	}
+	infeasible := enumInfeasible(fn)
 	push := func(from *ssa.BasicBlock, val []byte) {
 		for _, s := range succs(from, val) {
-			if q.CutEdges[Edge{from, s}] {
+			if q.CutEdges[Edge{from, s}] || infeasible[Edge{from, s}] {
 				continue
 			}
 			nv := transfer(val, from, s)
@@ -401,6 +402,102 @@ func (q PathQuery) Exists() (bool, []*ssa.BasicBlock) {
 		}
 	}
 	return false, nil
+}
+
+// enumInfeasible: edges that no execution takes because the tested value is the
+// result of a repository function all of whose returns are integer constants
+// (an enumeration of outcomes): in `switch h() { case A: … case B: … }` with
+// h returning only A or B, the edge past the last case is infeasible, and so is
+// the arm of a constant h never returns.  Only a direct call result compared
+// with constants in a chain of single-predecessor tests is recognised.
+var enumInfeasibleCache = map[*ssa.Function]map[Edge]bool{}
+
+func constReturnSet(h *ssa.Function) (map[int64]bool, bool) {
+	if h == nil || h.Blocks == nil || h.Signature.Results().Len() != 1 {
+		return nil, false
+	}
+	bt, ok := h.Signature.Results().At(0).Type().Underlying().(*types.Basic)
+	if !ok || bt.Info()&types.IsInteger == 0 {
+		return nil, false
+	}
+	set := map[int64]bool{}
+	for _, b := range h.Blocks {
+		if len(b.Instrs) == 0 {
+			continue
+		}
+		switch t := b.Instrs[len(b.Instrs)-1].(type) {
+		case *ssa.Return:
+			k, ok := ConstInt(t.Results[0])
+			if !ok {
+				return nil, false
+			}
+			set[k] = true
+		}
+	}
+	if h.Recover != nil || len(set) == 0 || len(set) > 8 {
+		return nil, false
+	}
+	return set, true
+}
+
+// EnumInfeasible exposes the edges for analyses that walk the CFG themselves.
+func EnumInfeasible(fn *ssa.Function) map[Edge]bool { return enumInfeasible(fn) }
+
+func enumInfeasible(fn *ssa.Function) map[Edge]bool {
+	if m, ok := enumInfeasibleCache[fn]; ok {
+		return m
+	}
+	out := map[Edge]bool{}
+	test := func(b *ssa.BasicBlock) (x *ssa.Call, k int64, ok bool) {
+		iff := IfOf(b)
+		if iff == nil {
+			return nil, 0, false
+		}
+		cmp, isB := iff.Cond.(*ssa.BinOp)
+		if !isB || cmp.Op != token.EQL {
+			return nil, 0, false
+		}
+		cl, isC := cmp.X.(*ssa.Call)
+		kk, isK := ConstInt(cmp.Y)
+		if !isC || !isK {
+			return nil, 0, false
+		}
+		return cl, kk, true
+	}
+	for _, b := range fn.Blocks {
+		x, k, ok := test(b)
+		if !ok {
+			continue
+		}
+		set, ok := constReturnSet(x.Call.StaticCallee())
+		if !ok {
+			continue
+		}
+		excluded := map[int64]bool{}
+		for cur := b; len(cur.Preds) == 1; {
+			pr := cur.Preds[0]
+			px, pk, ok := test(pr)
+			if !ok || px != x || len(pr.Succs) != 2 || pr.Succs[1] != cur || pr.Succs[0] == cur {
+				break
+			}
+			excluded[pk] = true
+			cur = pr
+		}
+		if !set[k] || excluded[k] {
+			out[Edge{b, b.Succs[0]}] = true
+		}
+		rest := 0
+		for v := range set {
+			if v != k && !excluded[v] {
+				rest++
+			}
+		}
+		if rest == 0 {
+			out[Edge{b, b.Succs[1]}] = true
+		}
+	}
+	enumInfeasibleCache[fn] = out
+	return out
 }
 
 // MustPassBetween reports whether every path from `from` (nil = entry) to `to`
